@@ -138,7 +138,11 @@ class TimeMixIn(object):
         :
             new instance of |ASN.1| value
         """
-        text = dt.strftime(cls._yearsDigits == 4 and '%Y%m%d%H%M%S' or '%y%m%d%H%M%S')
+        if cls._yearsDigits == 4:
+            # strftime('%Y') does not zero-pad years below 1000 everywhere
+            text = '%.4d' % dt.year + dt.strftime('%m%d%H%M%S')
+        else:
+            text = dt.strftime('%y%m%d%H%M%S')
         if cls._hasSubsecond:
             text += '.%d' % (dt.microsecond // 1000)
 
